@@ -99,3 +99,37 @@ Example c09_reuse_ex :
   let '(r1, p1, w1) := pool_get unit pc p0 w0 in
   PInv p0 /\ r1 = Ok 1 /\ sock_get (p_socks p1) 1 = Some 8 /\ sock_get (p_socks p1) 0 = None /\ p_free p1 = [].
 Proof. cbn zeta. vm_compute. repeat split; try reflexivity; repeat constructor; cbn; intuition (try discriminate; try lia). Qed.
+
+(* ---- idle expiry over whole histories: "idle longer than pool_idle_timeout -> closed, never reused" ----
+   The stamps of the idle connections followed by the clock's future readings are one chronological sequence (Chron).  It is so
+   initially for any non-decreasing clock, and every PooledClient call keeps it so (a call reads the clock at most twice; the
+   statement holds while the scripted clock has readings left).  In such a state a checkout leaves NO idle connection behind that
+   has been idle for longer than the timeout: the scan goes from the oldest, closes what has expired and stops at the first fresh
+   one - everything after it is fresher still.  (c09_reuse above says the ones it passed were closed.) *)
+From Coq Require Import Sorted.
+From PM Require Import Proofs.PoolIdle.
+Theorem c09_idle_chronological : forall P peer c pc ops p w,
+  Chron p -> (2 * length ops <= length (p_clock p))%nat -> Chron (snd (fst (pooled_ops P peer c pc ops p w))).
+Proof. exact PoolIdle.pooled_ops_chron. Qed.
+Print Assumptions c09_idle_chronological.
+
+Theorem c09_initially_chronological : forall clockl, StronglySorted Z.le clockl -> Chron (init_pool clockl).
+Proof. intros clockl H. exact H. Qed.
+
+Theorem c09_no_stale_idle : forall P pc p w, PInv p -> 1 <= pc_max pc -> Chron p -> (1 <= length (p_clock p))%nat ->
+  let '(r, p', w') := pool_get P pc p w in
+  forall c, r = Ok c -> Forall (fun e => now_of p - snd e <= pc_idle pc) (p_free p').
+Proof. exact PoolIdle.get_leaves_no_stale. Qed.
+Print Assumptions c09_no_stale_idle.
+
+(* non-vacuity: two idle connections, the older one expired: it is closed, the fresh one is handed out, nothing stale stays *)
+Example c09_no_stale_ex :
+  let pc := {| pc_max := 3; pc_idle := 60; pc_h_pool := BaseException |} in
+  let p0 := {| p_used := []; p_free := [(0, 1000); (1, 1050); (2, 1060)]; p_next := 3; p_socks := [(0, Some 7); (1, Some 8); (2, Some 9)];
+               p_clock := [1070; 1080]; p_created := 3 |} in
+  let '(r1, p1, w1) := pool_get unit pc p0 (init_world tt [] []) in
+  Chron p0 /\ r1 = Ok 1 /\ p_free p1 = [(2, 1060)] /\ sock_get (p_socks p1) 0 = None.
+Proof.
+  cbn zeta. vm_compute. repeat split; try reflexivity.
+  repeat (constructor; [|repeat constructor; intros X; discriminate X]). constructor.
+Qed.
